@@ -268,7 +268,45 @@ func asDefensiveUnsubscribe(rng *rand.Rand) (*asScenario, []asStep) {
 	return sc, steps
 }
 
+// asSubscriptionEdges: (a) the same subscription made twice (also by the next incarnation after a restart), given up once,
+// then an event is published: the second Subscribe had no additional effect, so nothing is delivered and no entry is left;
+// (b) a subscriber whose restart is turned into a termination by a Kill that arrives while it waits for its child: its
+// entries are gone like after any other termination.
+func asSubscriptionEdges(rng *rand.Rand) (*asScenario, []asStep) {
+	par := map[string]string{"t": "root", "f": "t", "c": "f", "b": "t"}
+	sc := &asScenario{Parent: par, Names: []string{"b", "c", "f", "t"}, Cfg: asConfig{Decision: map[string]string{}, Strategy: map[string]string{}}}
+	for _, n := range sc.Names {
+		sc.Cfg.Decision[n] = []string{"restart", "grestart", "resume"}[rng.Intn(3)]
+		sc.Cfg.Strategy[n] = []string{"ofo", "ofa"}[rng.Intn(2)]
+	}
+	typ := []string{"A", "B"}[rng.Intn(2)]
+	if rng.Intn(2) == 0 {
+		who := []string{"f", "c", "b"}[rng.Intn(3)]
+		steps := []asStep{{A: "spawn", X: "t"}, {A: "settle"}, {A: "tell", X: who, Op: "sub", Arg: typ}, {A: "settle"}}
+		if rng.Intn(2) == 0 && who != "c" {
+			// the second Subscribe comes from the incarnation after a restart
+			sc.Cfg.Decision["t"] = "restart"
+			steps = append(steps, asStep{A: "tell", X: who, Op: "fail"}, asStep{A: "settle"})
+		}
+		steps = append(steps, asStep{A: "tell", X: who, Op: "sub", Arg: typ}, asStep{A: "settle"},
+			asStep{A: "tell", X: who, Op: "unsub", Arg: typ}, asStep{A: "settle"},
+			asStep{A: "tell", X: "t", Op: "pub", Arg: typ}, asStep{A: "settle"})
+		return sc, steps
+	}
+	sc.Cfg.Decision["t"] = []string{"grestart", "restart"}[rng.Intn(2)]
+	sc.Cfg.Strategy["t"] = "ofo"
+	steps := []asStep{{A: "spawn", X: "t"}, {A: "turn", X: "t"}, {A: "turn", X: "b"}, {A: "turn", X: "f"}, {A: "turn", X: "c"},
+		{A: "tell", X: "f", Op: "sub", Arg: typ}, {A: "turn", X: "f"},
+		{A: "tell", X: "f", Op: "fail"}, {A: "turn", X: "f"}, {A: "turn", X: "t"}, {A: "turn", X: "f"},
+		{A: "kill", X: "f", Poison: rng.Intn(3) > 0}, {A: "random"},
+		{A: "settle"}, {A: "tell", X: "b", Op: "pub", Arg: typ}, {A: "settle"}}
+	return sc, steps
+}
+
 func asZombieSubscriber(rng *rand.Rand) (*asScenario, []asStep) {
+	if rng.Intn(3) == 0 {
+		return asSubscriptionEdges(rng)
+	}
 	if rng.Intn(2) == 0 {
 		return asDefensiveUnsubscribe(rng)
 	}
@@ -401,6 +439,17 @@ func asKillDuringGracefulRestart(rng *rand.Rand) (*asScenario, []asStep) {
 		for i := 0; i < 3; i++ {
 			steps = append(steps, asStep{A: "tell", X: "b", Op: "nop"}, asStep{A: "settle"})
 		}
+		return sc, steps
+	}
+	if rng.Intn(5) == 0 {
+		// a watcher registered before its target is restarted (once or twice) must still hear of the target's later termination
+		sc.Cfg.Decision["t"] = []string{"restart", "grestart"}[rng.Intn(2)]
+		sc.Cfg.Strategy["t"] = []string{"ofo", "ofa"}[rng.Intn(2)]
+		steps := []asStep{{A: "spawn", X: "t"}, {A: "settle"}, {A: "tell", X: "b", Op: "watch", Arg: "f"}, {A: "settle"}}
+		for i := 0; i < 1+rng.Intn(2); i++ {
+			steps = append(steps, asStep{A: "tell", X: "f", Op: "fail"}, asStep{A: "settle"})
+		}
+		steps = append(steps, asStep{A: "kill", X: "f", Poison: rng.Intn(2) == 0}, asStep{A: "settle"})
 		return sc, steps
 	}
 	if rng.Intn(4) == 0 {
